@@ -15,7 +15,9 @@
 
     Modelled class (the hypotheses of C16_enrichment_rate, per mapped reaction): mass action (rate = product of
     its arguments: every substrate once + unlabelled constants), no compound twice on the substrate side (C05's
-    homodimer finding), every compound of the reaction labelled (the linear mapper raises KeyError otherwise),
+    homodimer finding; the statements hold for EITHER form [rk] of the isotopomer mapper's rate-argument renaming,
+    the dict form of the tree and the per-occurrence form of fixes/C05-homodimer.diff -- for the latter the
+    constants must not be listed in label_variables, the conjunct [rk = ReplPositional -> getN a lv = None]), every compound of the reaction labelled (the linear mapper raises KeyError otherwise),
     the map a bijection of the positions 0 .. max(substrate atoms, product atoms)-1 (atoms are neither
     duplicated nor lost; merges and splits of COMPOUNDS, external positions and non-involutive permutations are
     covered), the supplied pool sizes / fluxes are those of the isotopomer state (pool = sum of the isotopomers,
@@ -43,19 +45,19 @@ Theorem C16_enrichment_rate :
     ofZ 0%Z = rO -> ofZ 1%Z = rI ->
     (forall a b : Z, ofZ (a + b)%Z = radd (ofZ a) (ofZ b)) ->
     (forall a : Z, ofZ (- a)%Z = ropp (ofZ a)) ->
-    forall (lv : label_vars) (rms : list (brxn * list Z)) (envI envL : lname -> R)
+    forall (rk : repl_kind) (lv : label_vars) (rms : list (brxn * list Z)) (envI envL : lname -> R)
            (isos : list (N * list lname)) (irs lrs : list (list lrxn)),
       Forall (fun rm =>
                 let r := fst rm in
                 let bs := subs_of (r_stoich r) in let bp := prods_of (r_stoich r) in
                 exists (extra : list N) (mun : list nat),
                   r_fn r = FProd /\ Permutation (r_args r) (bs ++ extra) /\ NoDup (map fst (r_stoich r)) /\ NoDup bs /\
-                  (forall a, In a extra -> ~ In a bs /\ ~ In a bp /\ nlab lv a = O) /\
+                  (forall a, In a extra -> ~ In a bs /\ ~ In a bp /\ nlab lv a = O /\ (rk = ReplPositional -> getN a lv = None)) /\
                   (forall c, In c (bs ++ bp) -> O < nlab lv c) /\
                   snd rm = map Z.of_nat mun /\
                   Permutation mun (seq O (Nat.max (total (labels_per lv bs)) (total (labels_per lv bp)))) /\
                   envL (LPlain (r_name r)) = prodR R rI rmul (map (benv R rO radd lv envI) (r_args r))) rms ->
-      collect (map (fun rm => create_iso_rxns (ext_bit_of gen_label_facts) lv (fst rm) (snd rm)) rms) = Ok irs ->
+      collect (map (fun rm => create_iso_rxns (ext_bit_of gen_label_facts) rk lv (fst rm) (snd rm)) rms) = Ok irs ->
       lin_isotopomers lv = Ok isos ->
       collect (map (fun rm => lin_rxns (f_lin_dir gen_label_facts) isos (fst rm) (snd rm)) rms) = Ok lrs ->
       (forall c, O < nlab lv c -> envL (LPlain c) = benv R rO radd lv envI c) ->
@@ -83,14 +85,15 @@ Print Assumptions C16_enrichment_rate.
     at rate 0.  (For involutive maps the two directions coincide, which is why identity / reversal maps cannot
     see it.) *)
 Theorem C16_direction_prefix_refuted :
+  forall rk : repl_kind,
   exists (lv : label_vars) (r : brxn) (extra : list N) (mun : list nat) (envI envL : lname -> Z)
          (isos : list (N * list lname)) (irxns lrxns : list lrxn) (c : N) (i : nat),
     let bs := subs_of (r_stoich r) in let bp := prods_of (r_stoich r) in
     r_fn r = FProd /\ Permutation (r_args r) (bs ++ extra) /\ NoDup (map fst (r_stoich r)) /\ NoDup bs /\
-    (forall a, In a extra -> ~ In a bs /\ ~ In a bp /\ nlab lv a = 0) /\
+    (forall a, In a extra -> ~ In a bs /\ ~ In a bp /\ nlab lv a = 0 /\ (rk = ReplPositional -> getN a lv = None)) /\
     (forall c, In c (bs ++ bp) -> 0 < nlab lv c) /\
     Permutation mun (seq 0 (Nat.max (total (labels_per lv bs)) (total (labels_per lv bp)))) /\
-    create_iso_rxns true lv r (map Z.of_nat mun) = Ok irxns /\
+    create_iso_rxns true rk lv r (map Z.of_nat mun) = Ok irxns /\
     lin_isotopomers lv = Ok isos /\
     lin_rxns DirInverse isos r (map Z.of_nat mun) = Ok lrxns /\
     (forall c, In c (bs ++ bp) -> envL (LPlain c) = benv Z 0%Z Z.add lv envI c /\ (envL (LPlain c) * idZ (envL (LPlain c)) = 1)%Z) /\
@@ -153,18 +156,19 @@ Print Assumptions C16_no_label_stays_zero.
     isotopomer 100: every hypothesis of C16_enrichment_rate holds and both models are built (8 isotopomer
     reactions, 3 label transfers) *)
 Example C16_nonvacuous :
+  forall rk : repl_kind,
   let rms := [(rf_rxn, map Z.of_nat rf_map)] in
   Forall (fun rm =>
             let r := fst rm in
             let bs := subs_of (r_stoich r) in let bp := prods_of (r_stoich r) in
             exists (extra : list N) (mun : list nat),
               r_fn r = FProd /\ Permutation (r_args r) (bs ++ extra) /\ NoDup (map fst (r_stoich r)) /\ NoDup bs /\
-              (forall a, In a extra -> ~ In a bs /\ ~ In a bp /\ nlab rf_lv a = O) /\
+              (forall a, In a extra -> ~ In a bs /\ ~ In a bp /\ nlab rf_lv a = O /\ (rk = ReplPositional -> getN a rf_lv = None)) /\
               (forall c, In c (bs ++ bp) -> O < nlab rf_lv c) /\
               snd rm = map Z.of_nat mun /\
               Permutation mun (seq O (Nat.max (total (labels_per rf_lv bs)) (total (labels_per rf_lv bp)))) /\
               rf_envL (LPlain (r_name r)) = prodR Z 1%Z Z.mul (map (benv Z 0%Z Z.add rf_lv rf_envI) (r_args r))) rms /\
-  (exists irs, collect (map (fun rm => create_iso_rxns true rf_lv (fst rm) (snd rm)) rms) = Ok irs /\ length (concat irs) = 8) /\
+  (exists irs, collect (map (fun rm => create_iso_rxns true rk rf_lv (fst rm) (snd rm)) rms) = Ok irs /\ length (concat irs) = 8) /\
   (exists isos lrs, lin_isotopomers rf_lv = Ok isos /\
                     collect (map (fun rm => lin_rxns DirDocumented isos (fst rm) (snd rm)) rms) = Ok lrs /\ length (concat lrs) = 3) /\
   (forall c, O < nlab rf_lv c -> rf_envL (LPlain c) = benv Z 0%Z Z.add rf_lv rf_envI c) /\
